@@ -162,6 +162,18 @@ Theorem T08_set_function_numbers : forall H cfg j j' p pts pts' ts ts' st st',
 Proof. exact set_function_numbers. Qed.
 Print Assumptions T08_set_function_numbers.
 
+(* ... and so is the metadata of the set — audit checksum, set size, filter description — again with no
+   distinguishability assumption (C09_perm lifted to the run: the checksum printed in front of every report depends on the
+   SET of selected transactions only) *)
+Theorem T08_set_function_checksum : forall H cfg j j' p pts pts' ts ts' st st',
+  parse_journal (rc_journal cfg) j = Ok pts -> mapM accept_ptxn pts = Ok ts ->
+  parse_journal (rc_journal cfg) j' = Ok pts' -> mapM accept_ptxn pts' = Ok ts' ->
+  Permutation ts ts' ->
+  run_prepare H cfg j p = Ok st -> run_prepare H cfg j' p = Ok st' ->
+  rs_md st = rs_md st' /\ length (rs_sel st) = length (rs_sel st').
+Proof. exact set_function_checksum. Qed.
+Print Assumptions T08_set_function_checksum.
+
 (* ... and the insignificant layout of the text (blank lines at transaction boundaries, indentation, order of metadata lines): T06_layout_invariance under the T08 name *)
 Theorem T08_set_function_layout : forall H cfg p,
   (forall a blanks b,
@@ -200,6 +212,22 @@ Theorem T08_filter_exact : forall H cfg j p st f pats,
     /\ exists items, rs_md st = Some (items ++ [MetaText.IFilter (MetaText.filter_lines (describe_def_tz (rc_zone_off cfg) (to_cfilter pats f)))]).
 Proof. exact filter_exact. Qed.
 Print Assumptions T08_filter_exact.
+
+(* a run with filter f and a run with NOT f (same journal settings, same texts) split the loaded set: it is an
+   order-preserving interleaving of the two selections, the sizes add up, every loaded transaction is behind the reports
+   of exactly one of the two runs (C05's filter/negation partition, lifted to the run) *)
+Theorem T08_filter_partition : forall H a b j p sta stb f pats,
+  rc_journal a = rc_journal b ->
+  rc_filter a = Some (f, pats) -> rc_filter b = Some (Filter.FNot f, pats) ->
+  run_prepare H a j p = Ok sta -> run_prepare H b j p = Ok stb ->
+  exists js,
+    load_journal (rc_journal a) j = Ok js
+    /\ Filter_spec.Interleave (rs_sel sta) (rs_sel stb) js
+    /\ (length (rs_sel sta) + length (rs_sel stb) = length js)%nat
+    /\ (forall x, In x js -> (In x (rs_sel sta) /\ ~ In x (rs_sel stb)) \/ (In x (rs_sel stb) /\ ~ In x (rs_sel sta)))
+    /\ rs_txns sta = map txn_of (rs_sel sta) /\ rs_txns stb = map txn_of (rs_sel stb).
+Proof. exact filter_partition. Qed.
+Print Assumptions T08_filter_partition.
 
 (* ... which is printed: the console text starts with the metadata block whose last item is Codec.describe_def of the
    filter *)
